@@ -177,6 +177,14 @@ open Gen.C05Facts in
 vetted site feeds a sort, a commutative accumulation, or is not consensus-visible (reason in the table below) -/
 theorem map_range_sites_vetted : mapRangeSites = vetted.map (fun v => (v.1, v.2.1, v.2.2.1)) := by decide
 
+open Gen.C05Facts in
+/-- no function of app/app.go other than the process-result cache cleaner ranges over a map: the evidence fold
+(`processBlockEvidence`), the election (`calculateCandidates`, `getAllCandidates`), the bookkeeping between elections
+(`updateCandidatesbyOrder`, `recoverCandidates`), `getValidators`, the special-transaction check and the parallel pre-check walk
+slices in the order the block or the contract storage fixes (the maps they use — `CandidatesMap`, `lastVals` — are only looked up) -/
+theorem app_walks_no_map_but_the_result_cache :
+    ∀ s ∈ mapRangeSites, s.1 = "app/app.go" → s.2.1 = "LinkApplication.clearProcessResult" := by decide
+
 /-! ## non-vacuity -/
 example : hashOf id [[2, 1], [1, 9], [2, 0]] = hashOf id [[2, 0], [2, 1], [1, 9]] :=
   stateHash_perm id (by decide)
